@@ -21,6 +21,8 @@ type Profile struct {
 	FlushBeforeReopen                                       bool     // re-opened trees then hold everything, unloaded
 	NoFinalDump                                             bool     // do not dump the open stores before the closing sequence
 	Cold                                                    int      // weight of the composite 'cold mutation under a snapshot' step (see the generator)
+	NoCmpCallback                                           bool     // stores are opened without KeyCompareForCollection; `setcoll` on every existing name follows each open
+	Fill                                                    int      // weight of a large `fill` (70..260 items) into a file-backed store
 	FlushExtra, EndExtra                                    []string // templates with %F = file id
 	KeyOnlyReads                                            bool     // C19: bracket key-only ops with rmark/kreads
 	Iter, SetRoot, SnapRevert, Write, Blocks                int
@@ -156,6 +158,22 @@ func foldKey(name string, k []byte) string {
 		return string(lowerASCII(k))
 	}
 	return string(k)
+}
+
+// installCmps: without the load-time comparator callback the application re-installs each
+// collection's comparator with SetCollection on the existing name, right after opening.
+func (g *Gen) installCmps(s *gstore) {
+	if !g.p.NoCmpCallback {
+		return
+	}
+	var ns []string
+	for n := range s.names {
+		ns = append(ns, n)
+	}
+	sort.Strings(ns)
+	for _, n := range ns {
+		g.emit("setcoll %d %s", s.sid, hx([]byte(n)))
+	}
 }
 
 func (g *Gen) pickStore(writable bool) *gstore {
@@ -383,6 +401,7 @@ func (g *Gen) history() []string {
 			}
 			g.stores[ns.sid] = ns
 			g.emit("open %d %d", ns.sid, ns.fid)
+			g.installCmps(ns)
 			if len(ns.names) == 0 {
 				n := g.namePool[r.Intn(len(g.namePool))]
 				g.emit("setcoll %d %s", ns.sid, hx([]byte(n)))
@@ -521,11 +540,13 @@ func (g *Gen) history() []string {
 			s := g.pickStore(false)
 			dir := []string{"asc", "desc"}[r.Intn(2)]
 			var tgt []byte
-			switch r.Intn(4) {
+			switch r.Intn(5) {
 			case 0:
 				tgt = []byte{}
 			case 1:
 				tgt = []byte{0xff, 0xff}
+			case 2:
+				tgt = nil // hx(nil) = "-"
 			default:
 				tgt = g.key()
 			}
@@ -590,6 +611,7 @@ func (g *Gen) history() []string {
 			}
 			g.stores[ns.sid] = ns
 			g.emit("open %d %d", ns.sid, ns.fid)
+			g.installCmps(ns)
 			sn := &gstore{sid: g.nextSid, fid: ns.fid, ro: true, names: map[string]bool{}, parent: ns.sid}
 			g.nextSid++
 			for x := range ns.names {
@@ -615,6 +637,13 @@ func (g *Gen) history() []string {
 					g.emit("geti %d %s %s %d", sn.sid, hn, hx(keys[r.Intn(len(keys))]), r.Intn(2))
 				}
 			}
+		}},
+		{p.Fill, func() {
+			s := g.pickStore(true)
+			if s == nil || s.mem {
+				return
+			}
+			g.emit("fill %d %s %d", s.sid, hx([]byte(g.pickName(s, true))), 70+r.Intn(190))
 		}},
 		{p.SnapRead, func() {
 			// a read THROUGH a snapshot that does not evict what it loads (GetItem / Min / Max)
